@@ -3,6 +3,8 @@ from pyvc.runner import Prop, Bounded, script_replay
 from pyvc import effects
 import contracts.guesser_core as gc
 import contracts.guesser_lemmas as gl
+import contracts.guesser_loader as gld
+import contracts.guesser_session as gs
 
 M = gc.MOD + ':PcfgGrammar.'
 Q = gc.PQ + ':'
@@ -10,12 +12,17 @@ Q = gc.PQ + ':'
 PROP = Prop(
     'C02', 'Every pre-terminal of the grammar is emitted exactly once',
     functions=[M + '_find_prob', M + '_are_you_my_child', M + 'find_children', M + 'initalize_base_structures',
-               Q + 'PcfgQueue.insert_queue', Q + 'PcfgQueue.next'],
-    lemmas=gl.all_c02_lemmas,
+               Q + 'PcfgQueue.insert_queue', Q + 'PcfgQueue.next',
+               # every line of grammar.txt is one derivation: the loader keeps all of them, in order (also a structure listed twice)
+               (gld.GIO + ':_load_base_structures', gs.install)],
+    lemmas=lambda: gl.all_c02_lemmas() + gld.firstm_stable.lemmas(),
     effects=effects.state_frame_for('C02', ['lib_guesser/pcfg_grammar.py', 'lib_guesser/priority_queue.py', 'lib_guesser/grammar_io.py']),
     level='proof',
     replay=script_replay('replay/guesser.py'),
-    bounded=[Bounded('C02.bounded.run', 'replay/guesser.py', args=['--fn', 'RUN'],
+    bounded=[Bounded('C02.bounded.loader_base', 'replay/loader.py', args=['--fn', '_load_base_structures'],
+                     bound='grammar.txt files of 1-6 lines incl. the same structure listed twice, M line first/middle/last/absent, both skip_brute values',
+                     clause='cross-check: the loaded base structures are exactly the lines of the file, duplicates included'),
+             Bounded('C02.bounded.run', 'replay/guesser.py', args=['--fn', 'RUN'],
                      bound='60 random rulesets (1-3 base structures incl. duplicates, repeated variable types, tie-rich dyadic probabilities), run to exhaustion',
                      clause='cross-check on the real classes: the emitted multiset equals the set of derivations (exactly once), children pushed == adopted children')],
     assumptions=[
